@@ -282,10 +282,16 @@ func Prop(c Case, x *h.Ctx) *h.Violation {
 		n   string
 	}
 	var hvs []hv
-	for _, v := range []uint32{0, 5, 6, 255, 256, 1 << 31, 1<<32 - 1} {
+	// "unsupported" is what the repository itself declares: versions outside Version1..CurrentVersion, compression
+	// codes its compressor factory refuses
+	for _, v := range []uint32{0, recordio.CurrentVersion + 1, recordio.CurrentVersion + 2, 255, 256, 1 << 31, 1<<32 - 1} {
 		hvs = append(hvs, hv{0, v, "version"})
 	}
-	for _, v := range []uint32{4, 5, 255, 256, 1 << 31, 1<<32 - 1} {
+	for _, v := range []uint32{4, 5, 6, 255, 256, 1 << 31, 1<<32 - 1} {
+		if _, err := recordio.NewCompressorForType(int(v)); err == nil {
+			x.Labelf("compression-code-%d-is-supported", v)
+			continue
+		}
 		hvs = append(hvs, hv{4, v, "compression"})
 	}
 	for _, q := range hvs {
